@@ -18,6 +18,8 @@ import (
 var (
 	c16Names  = []string{"__name__", "job", "s", "odd", "env", "zone", "nosuch", "id", "id"}
 	c16Values = []string{"", "m", "a", "b", "y", "0", "1", "2", "3", "prod", "dev", "eu-1", "eu-2", "us", "zz"}
+	// runs with many series: the values at and next to the postings offset table's sampling points
+	c16ValuesMany = append(append([]string{}, c16Values...), "v032", "v064", "v031", "v000", "v033")
 	c16Regex  = []string{"", ".*", ".+", "a|b", "a|", "|b", "(a|b)", "[0-3]", "1|2|7", ".*1", "eu-.*", "eu-.+", "eu-[12]", "(?i:PROD)", "p.*|d.*", "m", "y?", ".", "..+", "prod|dev|", "[^a]*", "v0.*", "v03.|v06.", "v0[0-9]+"}
 )
 
@@ -33,7 +35,11 @@ func (e *exec) genMatchers() []Matcher {
 		if m.T >= 2 {
 			m.V = c16Regex[e.rng.Intn(len(c16Regex))]
 		} else {
-			m.V = c16Values[e.rng.Intn(len(c16Values))]
+			vals := c16Values
+			if e.cfg.NSeries >= 30 {
+				vals = c16ValuesMany
+			}
+			m.V = vals[e.rng.Intn(len(vals))]
 		}
 		ms = append(ms, m)
 	}
